@@ -215,46 +215,49 @@ def k5Hit (gs fs : Fields) (writerMax : Option Nat) : Bool :=
 def piecesMax (ps : List (Piece Bytes)) : Option Nat := maxPresent ps
 
 mutual
-/-- `benign w r v`: neither F5 nor K5 is triggered anywhere in the value. -/
-def benign : FTy → FTy → Val → Bool
-  | .option w, .option r, .some v => benign w r v
-  | .vec w, .vec r, .list vs => vs.all (benign w r)
+/-- `benignP f5 k5 w r v`: the selected hazards (F5 / K5) are not triggered anywhere in the value. -/
+def benignP (f5 k5 : Bool) : FTy → FTy → Val → Bool
+  | .option w, .option r, .some v => benignP f5 k5 w r v
+  | .vec w, .vec r, .list vs => vs.all (benignP f5 k5 w r)
   | .struct a fs, .struct _ gs, .struct vs =>
       if a.transparent then
         (match gs with
-         | [(_, u)] => benignOne fs u vs
+         | [(_, u)] => benignOne f5 k5 fs u vs
          | _ => true)
-      else benignFields fs gs vs
-           && !(encOf a.enc == .array && k5Hit gs fs (piecesMax (encFields fs vs)))
-  | .enum a vs, .enum b us, .enum k fvs => benignVars a b vs us k fvs
+      else benignFields f5 k5 fs gs vs
+           && !(k5 && encOf a.enc == .array && k5Hit gs fs (piecesMax (encFields fs vs)))
+  | .enum a vs, .enum b us, .enum k fvs => benignVars f5 k5 a b vs us k fvs
   | _, _, _ => true
 termination_by structural w => w
-def benignOne : Fields → FTy → List Val → Bool
-  | [(_, t)], u, [v] => benign t u v
+def benignOne (f5 k5 : Bool) : Fields → FTy → List Val → Bool
+  | [(_, t)], u, [v] => benignP f5 k5 t u v
   | _, _, _ => true
 termination_by structural fs => fs
-def benignFields : Fields → Fields → List Val → Bool
+def benignFields (f5 k5 : Bool) : Fields → Fields → List Val → Bool
   | (fa, t) :: fs, gs, v :: vs =>
       (if fa.skip then true
        else match findField gs fa.idx with
          | none => true
-         | some (_, u) => benign t u v)
-      && benignFields fs gs vs
+         | some (_, u) => benignP f5 k5 t u v)
+      && benignFields f5 k5 fs gs vs
   | _, _, _ => true
 termination_by structural fs => fs
-def benignVars (a b : EAttr) : Variants → Variants → Nat → List Val → Bool
+def benignVars (f5 k5 : Bool) (a b : EAttr) : Variants → Variants → Nat → List Val → Bool
   | [], _, _, _ => true
   | (va, fs) :: _, us, 0, fvs =>
       (match findVar us 0 va.idx with
-       | none => !a.indexOnly                 -- F5: unknown variant of an `index_only` enum
+       | none => !(f5 && a.indexOnly)            -- F5: unknown variant of an `index_only` enum
        | some (_, vb, gs) =>
            (match vb.shape, va.shape with
             | .unit, _ => true
             | _, .unit => true
-            | _, _ => benignFields fs gs fvs
-                && !(encOf (va.enc <|> a.enc) == .array && k5Hit gs fs (piecesMax (encFields fs fvs)))))
-  | _ :: rest, us, k + 1, fvs => benignVars a b rest us k fvs
+            | _, _ => benignFields f5 k5 fs gs fvs
+                && !(k5 && encOf (va.enc <|> a.enc) == .array && k5Hit gs fs (piecesMax (encFields fs fvs)))))
+  | _ :: rest, us, k + 1, fvs => benignVars f5 k5 a b rest us k fvs
 termination_by structural vs => vs
 end
+
+/-- neither F5 nor K5 is triggered anywhere in the value. -/
+def benign (w r : FTy) (v : Val) : Bool := benignP true true w r v
 
 end Minicbor.Derive
